@@ -19,7 +19,8 @@ func init() {
 			"(3) Serde.decodeFind indexes only maps with decoded values, returns ErrNotRegistered when the entry does not exist or has no decoder, and propagates DecodeID/DecodeIndex errors before using their results; Decode/DecodeNew return decodeFind's error before calling the decoder; " +
 			"(4) Serde.Register (rule sr-register-table-order): in the cloned type table the delete of the previous registration's type (<node>.typeof under <node>.exists) can never execute after the insert of the new registration (key reflect.TypeOf(v)); the order is decided on the CFG with directly deferred closures placed at function exit in reverse registration order, a delete after the insert is tolerated only under a `removed key != inserted key` guard; every write to the inserted tserde variable precedes the insert (the table holds the final id/index/codec); " +
 			"(5) rule sr-reflect-type-nonnil: every reflect.New/Zero/MakeSlice/... call with a reflect.Type argument and every reflect.Type method call on a tserde.typeof value in pkg/sr is dominated by the branch fact `X != nil` (Register(id, nil, ...) records a nil type); rule sr-codec-call-nonnil: every call through tserde.gen/encode/appendEncode is dominated by a non-nil test of that field (one propositional step !(A&&B), B => !A is applied), tserde.decode is called only on the entry returned by decodeFind; local aliases of the fields (gen, typ := t.gen, t.typeof) are followed; " +
-			"(6) rule sr-decodenew-instantiate: the decoder's destination in DecodeNew is assigned on every path reaching t.decode, only from t.gen() or reflect.New(t.typeof).Interface(), both sources are present, and ErrNotRegistered is returned exactly on an arm where gen == nil and typeof == nil (and such an arm exists).",
+			"(6) rule sr-decodenew-instantiate: the decoder's destination in DecodeNew is assigned on every path reaching t.decode, only from t.gen() or reflect.New(t.typeof).Interface(), both sources are present, and ErrNotRegistered is returned exactly on an arm where gen == nil and typeof == nil (and such an arm exists); " +
+			"(7) rule sr-id-width-agree (round 4): type-resolved conversion chains between the Go-side ID/index values and the wire: the ID returned by ConfluentHeader.DecodeID is traced back through conversions and single-definition locals to binary.BigEndian.Uint32 and every step must hold all of uint32 (uint32/uint/uint64/uintptr/int64/int; int32 or narrower fails); DecodeIndex elements trace to binary.ReadVarint through int/int64 only; on the way out Register's tserde.id store, Serde.AppendEncode's int(t.id) argument, the header's id parameter and the AppendVarint arguments keep at least 32 bits (int/int64 for index values); Serde.Decode returns only decodeFind's error before handing the payload to the registered decoder (sr-decode-find #no-extra-reject); non-nil guards also recognise short-circuit guards inside one expression (A != nil && f(A)).",
 		NotDecided: "round-trip equality through user-supplied encode/decode functions (value-level); custom SerdeHeader implementations; Register's ID-tree clone (tserdeMapClone, subindexDepth bookkeeping) beyond the ordering/finality of the type-table update; inserts or deletes of the type table inside closures that are not directly deferred literals are reported undecided; concurrent Register/Encode interleavings (the copy-on-write publication is assumed atomic).",
 		Run:        runC36,
 	})
@@ -294,6 +295,7 @@ func runC36(c *Ctx) {
 		}
 	}
 	c36round3(c, m)
+	c36round4(c, m)
 }
 
 // enclosingBlock returns the innermost block statement containing n directly.
